@@ -470,3 +470,217 @@ Section RadiusKernel.
     unfold F. repeat split; f_equal; f_equal; ring.
   Qed.
 End RadiusKernel.
+
+(* ------------------------------------------------------------------ volume preservation: 1-D core *)
+Section Volume1D.
+  Open Scope R_scope.
+  Let RthR := num_ring_R.
+
+  Lemma zsumR_add n (f h : Z -> R) : zsum n (fun i => f i + h i) = zsum n f + zsum n h.
+  Proof. apply (zsum_add RthR). Qed.
+  Lemma zsumR_scale n a (f : Z -> R) : zsum n (fun i => a * f i) = a * zsum n f.
+  Proof. apply (zsum_scale RthR). Qed.
+  Lemma zsumR_split n m (f : Z -> R) : (0 <= m)%Z -> (0 <= n)%Z ->
+    zsum (m + n) f = zsum m f + zsum n (fun i => f (m + i)%Z).
+  Proof. apply (zsum_split RthR). Qed.
+  Lemma zsumR_rev n (f : Z -> R) : zsum n f = zsum n (fun i => f (n - 1 - i)%Z).
+  Proof. apply (zsum_rev RthR). Qed.
+  Lemma zsumR_swap n m (f : Z -> Z -> R) :
+    zsum n (fun i => zsum m (fun j => f i j)) = zsum m (fun j => zsum n (fun i => f i j)).
+  Proof. apply (zsum_swap RthR). Qed.
+
+  (* the sum of a P-periodic function over any window of length P *)
+  Lemma periodic_window P (h : Z -> R) : (0 <= P)%Z -> (forall i, h (i + P)%Z = h i) ->
+    forall s, zsum P (fun i => h (s + i)%Z) = zsum P h.
+  Proof.
+    intros HP Hper.
+    assert (Step : forall s, zsum P (fun i => h (s + 1 + i)%Z) = zsum P (fun i => h (s + i)%Z)).
+    { intros s.
+      pose proof (zsumR_succ P (fun i => h (s + i)%Z) HP) as A. cbv beta in A.
+      pose proof (zsumR_split P 1 (fun i => h (s + i)%Z) ltac:(lia) HP) as B. cbv beta in B.
+      replace (1 + P)%Z with (P + 1)%Z in B by lia. rewrite A in B.
+      replace 1%Z with (0 + 1)%Z in B at 1 by lia.
+      rewrite (zsumR_succ 0) in B by lia. rewrite (zsum_nonpos 0) in B by lia.
+      replace (s + 0)%Z with s in B by lia. rewrite Hper in B.
+      rewrite (zsum_ext P (fun i => h (s + 1 + i)%Z) (fun i => h (s + (1 + i))%Z)) by (intros; f_equal; lia).
+      change (@nzero R NumR) with 0 in B. lra. }
+    assert (Up : forall k, (0 <= k)%Z -> forall s, zsum P (fun i => h (s + k + i)%Z) = zsum P (fun i => h (s + i)%Z)).
+    { intros k Hk. pattern k. apply natlike_ind; [| |exact Hk].
+      - intros s. apply zsum_ext. intros; f_equal; lia.
+      - intros m Hm IH s. rewrite <- (IH s). rewrite <- (Step (s + m)%Z).
+        apply zsum_ext. intros; f_equal; lia. }
+    intros s. destruct (Z_lt_le_dec s 0) as [Hs|Hs].
+    - rewrite <- (Up (- s)%Z ltac:(lia) s). apply zsum_ext. intros; f_equal; lia.
+    - rewrite <- (zsum_ext P (fun i => h (0 + s + i)%Z)) by (intros; f_equal; lia).
+      rewrite (Up s Hs 0%Z). apply zsum_ext. intros; f_equal; lia.
+  Qed.
+
+  Variable n : Z.
+  Hypothesis Hn : (1 <= n)%Z.
+  Variable g : Z -> R.
+
+  Lemma sym_full_period : zsum (n + n) (fun i => g (sym_idx n i)) = 2 * zsum n g.
+  Proof.
+    rewrite zsumR_split by lia.
+    rewrite (zsum_ext n (fun i => g (sym_idx n i)) g) by (intros i Hi; rewrite sym_idx_in by lia; reflexivity).
+    rewrite (zsum_ext n (fun i => g (sym_idx n (n + i))) (fun i => g (n - 1 - i)%Z)).
+    - rewrite <- zsumR_rev. lra.
+    - intros i Hi. rewrite sym_idx_hi by lia. f_equal. lia.
+  Qed.
+
+  (* number of window positions reading element j at offsets +t and -t: together every element is read twice *)
+  Lemma sym_pair_sum t :
+    zsum n (fun a => g (sym_idx n (a + t))) + zsum n (fun a => g (sym_idx n (a - t))) = 2 * zsum n g.
+  Proof.
+    assert (E : zsum n (fun a => g (sym_idx n (a - t))) = zsum n (fun a => g (sym_idx n (t - n + a)))).
+    { rewrite zsumR_rev. apply zsum_ext. intros a Ha.
+      rewrite <- (sym_idx_reflect n (n - 1 - a - t)) by lia. f_equal. f_equal. lia. }
+    rewrite E. rewrite Rplus_comm.
+    rewrite (zsum_ext n (fun a => g (sym_idx n (a + t))) (fun a => g (sym_idx n (t - n + (n + a))))) by (intros; f_equal; f_equal; lia).
+    rewrite <- (zsumR_split n n (fun i => g (sym_idx n (t - n + i)))) by lia.
+    rewrite (periodic_window (n + n) (fun i => g (sym_idx n i))) ; [apply sym_full_period | lia |].
+    intros i. replace (i + (n + n))%Z with (i + 2 * n)%Z by lia. rewrite sym_idx_period by lia. reflexivity.
+  Qed.
+
+  (* halving: a sum over a symmetric index range equals the sum of the half-symmetrised terms *)
+  Lemma zsum_half m (Phi Psi : Z -> R) :
+    (forall q, (0 <= q < m)%Z -> Phi q + Phi (m - 1 - q)%Z = 2 * Psi q) -> zsum m Phi = zsum m Psi.
+  Proof.
+    intros E. pose proof (zsumR_rev m Phi) as Rv.
+    assert (D : zsum m Phi + zsum m (fun q => Phi (m - 1 - q)%Z) = 2 * zsum m Psi).
+    { rewrite <- zsumR_add. rewrite <- zsumR_scale. apply zsum_ext. exact E. }
+    lra.
+  Qed.
+End Volume1D.
+
+(* ------------------------------------------------------------------ volume preservation: 3-D lift *)
+Section Volume3D.
+  Open Scope R_scope.
+  Let RthR := num_ring_R.
+
+  Lemma zsum_zsum3 n kx ky kz (F : Z -> Z -> Z -> Z -> R) :
+    zsum n (fun i => zsum3 kx ky kz (fun qa qb qc => F i qa qb qc)) =
+    zsum3 kx ky kz (fun qa qb qc => zsum n (fun i => F i qa qb qc)).
+  Proof.
+    unfold zsum3. rewrite zsumR_swap. apply zsum_ext. intros qa _.
+    rewrite zsumR_swap. apply zsum_ext. intros qb _. apply zsumR_swap.
+  Qed.
+
+  Lemma zsum3_exchange nx ny nz kx ky kz (F : Z -> Z -> Z -> Z -> Z -> Z -> R) :
+    zsum3 nx ny nz (fun a b d => zsum3 kx ky kz (fun qa qb qc => F a b d qa qb qc)) =
+    zsum3 kx ky kz (fun qa qb qc => zsum3 nx ny nz (fun a b d => F a b d qa qb qc)).
+  Proof.
+    unfold zsum3 at 1.
+    rewrite (zsum_ext nx _ (fun a => zsum3 kx ky kz (fun qa qb qc => zsum ny (fun b => zsum nz (fun d => F a b d qa qb qc))))).
+    - rewrite zsum_zsum3. reflexivity.
+    - intros a _.
+      rewrite (zsum_ext ny _ (fun b => zsum3 kx ky kz (fun qa qb qc => zsum nz (fun d => F a b d qa qb qc))))
+        by (intros b _; apply zsum_zsum3).
+      apply zsum_zsum3.
+  Qed.
+
+  Lemma zsum3_perm nx ny nz (F : Z -> Z -> Z -> R) :
+    zsum nz (fun k => zsum ny (fun j => zsum nx (fun i => F i j k))) = zsum3 nx ny nz F.
+  Proof.
+    unfold zsum3. rewrite zsumR_swap.
+    rewrite (zsum_ext ny _ (fun j => zsum nx (fun i => zsum nz (fun k => F i j k)))) by (intros; apply zsumR_swap).
+    apply zsumR_swap.
+  Qed.
+
+  Variables nx ny nz px py pz : Z.
+  Hypothesis Hnx : (1 <= nx)%Z.
+  Hypothesis Hny : (1 <= ny)%Z.
+  Hypothesis Hnz : (1 <= nz)%Z.
+  Variable w : Z -> Z -> Z -> R.
+  Let kx := (2 * px + 1)%Z.
+  Let ky := (2 * py + 1)%Z.
+  Let kz := (2 * pz + 1)%Z.
+  (* the kernel is invariant under the mirror of every axis *)
+  Hypothesis Hmx : forall qa qb qc, (0 <= qa < kx)%Z -> (0 <= qb < ky)%Z -> (0 <= qc < kz)%Z ->
+                   w (2 * px - qa)%Z qb qc = w qa qb qc.
+  Hypothesis Hmy : forall qa qb qc, (0 <= qa < kx)%Z -> (0 <= qb < ky)%Z -> (0 <= qc < kz)%Z ->
+                   w qa (2 * py - qb)%Z qc = w qa qb qc.
+  Hypothesis Hmz : forall qa qb qc, (0 <= qa < kx)%Z -> (0 <= qb < ky)%Z -> (0 <= qc < kz)%Z ->
+                   w qa qb (2 * pz - qc)%Z = w qa qb qc.
+  Variable G : Z -> Z -> Z -> R.
+
+  Let sxi (a q : Z) : Z := sym_idx nx (a + px - q).
+  Let syi (b q : Z) : Z := sym_idx ny (b + py - q).
+  Let szi (d q : Z) : Z := sym_idx nz (d + pz - q).
+
+  Theorem sym_conv_volume :
+    zsum3 nx ny nz (fun a b d => zsum3 kx ky kz (fun qa qb qc => w qa qb qc * G (sxi a qa) (syi b qb) (szi d qc))) =
+    zsum3 kx ky kz w * zsum3 nx ny nz G.
+  Proof.
+    rewrite zsum3_exchange.
+    (* V, Vx, Vxy: the field summed over the window positions of 3, 2, 1 axes *)
+    set (Vx := fun qb qc => zsum ny (fun b => zsum nx (fun i => zsum nz (fun d => G i (syi b qb) (szi d qc))))).
+    set (Vxy := fun qc => zsum nz (fun d => zsum ny (fun j => zsum nx (fun i => G i j (szi d qc))))).
+    set (C := zsum nz (fun k => zsum ny (fun j => zsum nx (fun i => G i j k)))).
+    assert (Px : forall qa qb qc,
+               zsum3 nx ny nz (fun a b d => G (sxi a qa) (syi b qb) (szi d qc)) +
+               zsum3 nx ny nz (fun a b d => G (sxi a (2 * px - qa)) (syi b qb) (szi d qc)) = 2 * Vx qb qc).
+    { intros qa qb qc. unfold zsum3.
+      pose proof (sym_pair_sum nx Hnx (fun i => zsum ny (fun b => zsum nz (fun d => G i (syi b qb) (szi d qc)))) (px - qa)%Z) as P.
+      cbv beta in P.
+      rewrite (zsum_ext nx (fun a => zsum ny (fun b => zsum nz (fun d => G (sxi a qa) (syi b qb) (szi d qc))))
+                 (fun a => zsum ny (fun b => zsum nz (fun d => G (sym_idx nx (a + (px - qa))) (syi b qb) (szi d qc)))))
+        by (intros a _; unfold sxi; replace (a + px - qa)%Z with (a + (px - qa))%Z by lia; reflexivity).
+      rewrite (zsum_ext nx (fun a => zsum ny (fun b => zsum nz (fun d => G (sxi a (2 * px - qa)) (syi b qb) (szi d qc))))
+                 (fun a => zsum ny (fun b => zsum nz (fun d => G (sym_idx nx (a - (px - qa))) (syi b qb) (szi d qc)))))
+        by (intros a _; unfold sxi; replace (a + px - (2 * px - qa))%Z with (a - (px - qa))%Z by lia; reflexivity).
+      rewrite P. unfold Vx. rewrite zsumR_swap. reflexivity. }
+    assert (Py : forall qb qc, Vx qb qc + Vx (2 * py - qb)%Z qc = 2 * Vxy qc).
+    { intros qb qc. unfold Vx.
+      pose proof (sym_pair_sum ny Hny (fun j => zsum nx (fun i => zsum nz (fun d => G i j (szi d qc)))) (py - qb)%Z) as P.
+      cbv beta in P.
+      rewrite (zsum_ext ny (fun b => zsum nx (fun i => zsum nz (fun d => G i (syi b qb) (szi d qc))))
+                 (fun b => zsum nx (fun i => zsum nz (fun d => G i (sym_idx ny (b + (py - qb))) (szi d qc)))))
+        by (intros b _; unfold syi; replace (b + py - qb)%Z with (b + (py - qb))%Z by lia; reflexivity).
+      rewrite (zsum_ext ny (fun b => zsum nx (fun i => zsum nz (fun d => G i (syi b (2 * py - qb)) (szi d qc))))
+                 (fun b => zsum nx (fun i => zsum nz (fun d => G i (sym_idx ny (b - (py - qb))) (szi d qc)))))
+        by (intros b _; unfold syi; replace (b + py - (2 * py - qb))%Z with (b - (py - qb))%Z by lia; reflexivity).
+      rewrite P. unfold Vxy. f_equal.
+      rewrite (zsum_ext ny _ (fun j => zsum nz (fun d => zsum nx (fun i => G i j (szi d qc))))) by (intros; apply zsumR_swap).
+      apply zsumR_swap. }
+    assert (Pz : forall qc, Vxy qc + Vxy (2 * pz - qc)%Z = 2 * C).
+    { intros qc. unfold Vxy.
+      pose proof (sym_pair_sum nz Hnz (fun k => zsum ny (fun j => zsum nx (fun i => G i j k))) (pz - qc)%Z) as P.
+      cbv beta in P.
+      rewrite (zsum_ext nz (fun d => zsum ny (fun j => zsum nx (fun i => G i j (szi d qc))))
+                 (fun d => zsum ny (fun j => zsum nx (fun i => G i j (sym_idx nz (d + (pz - qc)))))))
+        by (intros d _; unfold szi; replace (d + pz - qc)%Z with (d + (pz - qc))%Z by lia; reflexivity).
+      rewrite (zsum_ext nz (fun d => zsum ny (fun j => zsum nx (fun i => G i j (szi d (2 * pz - qc)))))
+                 (fun d => zsum ny (fun j => zsum nx (fun i => G i j (sym_idx nz (d - (pz - qc)))))))
+        by (intros d _; unfold szi; replace (d + pz - (2 * pz - qc))%Z with (d - (pz - qc))%Z by lia; reflexivity).
+      rewrite P. reflexivity. }
+    (* pull the weight out of the sum over window positions *)
+    rewrite (zsum3_ext kx ky kz _ (fun qa qb qc =>
+               w qa qb qc * zsum3 nx ny nz (fun a b d => G (sxi a qa) (syi b qb) (szi d qc))))
+      by (intros; apply zsum3R_scale).
+    unfold zsum3 at 1.
+    (* x axis *)
+    rewrite (zsum_half kx _ (fun qa => zsum ky (fun qb => zsum kz (fun qc => w qa qb qc * Vx qb qc)))).
+    2:{ intros qa Hqa. replace (kx - 1 - qa)%Z with (2 * px - qa)%Z by (unfold kx; lia).
+        rewrite <- zsumR_add. rewrite <- zsumR_scale. apply zsum_ext. intros qb Hqb.
+        rewrite <- zsumR_add. rewrite <- zsumR_scale. apply zsum_ext. intros qc Hqc.
+        rewrite Hmx by assumption.
+        specialize (Px qa qb qc). nra. }
+    (* y axis *)
+    rewrite (zsum_ext kx _ (fun qa => zsum ky (fun qb => zsum kz (fun qc => w qa qb qc * Vxy qc)))).
+    2:{ intros qa Hqa. apply zsum_half. intros qb Hqb.
+        replace (ky - 1 - qb)%Z with (2 * py - qb)%Z by (unfold ky; lia).
+        rewrite <- zsumR_add. rewrite <- zsumR_scale. apply zsum_ext. intros qc Hqc.
+        rewrite Hmy by assumption.
+        specialize (Py qb qc). nra. }
+    (* z axis *)
+    rewrite (zsum_ext kx _ (fun qa => zsum ky (fun qb => zsum kz (fun qc => w qa qb qc * C)))).
+    2:{ intros qa Hqa. apply zsum_ext. intros qb Hqb. apply zsum_half. intros qc Hqc.
+        replace (kz - 1 - qc)%Z with (2 * pz - qc)%Z by (unfold kz; lia).
+        rewrite Hmz by assumption.
+        specialize (Pz qc). nra. }
+    fold (zsum3 kx ky kz (fun qa qb qc => w qa qb qc * C)).
+    rewrite (zsum3_ext kx ky kz _ (fun qa qb qc => C * w qa qb qc)) by (intros; apply Rmult_comm).
+    rewrite zsum3R_scale. unfold C. rewrite zsum3_perm. apply Rmult_comm.
+  Qed.
+End Volume3D.
